@@ -630,6 +630,33 @@ fn sweep(d: &dyn Dialect, c: &Value) -> Value {
             }
         }
     }
+    // transposition: two neighbouring tokens exchanged (clauses accepted in either order must still print in an
+    // order the parser reads back, and a modifier accepted on the "wrong" side must not be dropped)
+    for a in 0..nws.len().saturating_sub(1) {
+        let (s1, e1, s2, e2) = (offs[nws[a]], offs[nws[a] + 1], offs[nws[a + 1]], offs[nws[a + 1] + 1]);
+        if e1 > s2 { continue; }
+        let t1: String = chars[s1..e1].iter().collect();
+        let t2: String = chars[s2..e2].iter().collect();
+        if t1 == t2 { continue; }
+        let mid: String = chars[e1..s2].iter().collect();
+        let m: String = chars[..s1].iter().collect::<String>() + &t2 + if mid.is_empty() { " " } else { &mid } + &t1 + &chars[e2..].iter().collect::<String>();
+        tried += 1;
+        match parse_caught(d, &m, unescape, trailing) {
+            Err(msg) => {
+                panics += 1;
+                if fails.len() < 8 { fails.push(json!({"mutated": m, "frag": "<transpose>", "why": "panic", "detail": msg})); }
+            }
+            Ok(Err(_)) => {}
+            Ok(Ok(v)) => {
+                accepted += 1;
+                let rt = roundtrip_parsed(d, &v, unescape, trailing);
+                let ct = if has_copy_payload(&v) { json!({"status": "ok"}) } else { content_cmp(d, &m, &v, unescape) };
+                if (rt["status"] != "ok" || ct["status"] != "ok") && fails.len() < 8 {
+                    fails.push(json!({"mutated": m, "frag": "<transpose>", "why": if rt["status"] != "ok" { "roundtrip" } else { "content" }}));
+                }
+            }
+        }
+    }
     json!({"status": "swept", "tried": tried, "accepted": accepted, "panics": panics, "fails": fails})
 }
 
